@@ -551,6 +551,8 @@ func init() {
 						eval(c19Case{Kind: "insert", Locs: ls, Keys: []string{"", "source", ""}}, true, 900)
 					case 2:
 						eval(c19Case{Kind: "insert", Locs: ls, Keys: []string{"", "source", "source"}}, true, 900)
+					case 3:
+						eval(c19Case{Kind: "insert", Locs: ls, Keys: []string{"source", "source", ""}}, true, 900)
 					}
 					eval(c19Case{Kind: "order", Locs: ls}, true, 950)
 				})
@@ -564,6 +566,8 @@ func init() {
 				done = r.ParallelFor(m*m*m*m, func(idx int) {
 					ls := encodeAll([]gts.Location{d4[idx%m], d4[(idx/m)%m], d4[(idx/(m*m))%m], d4[idx/(m*m*m)]})
 					eval(c19Case{Kind: "insert", Locs: ls}, true, 990)
+					eval(c19Case{Kind: "insert", Locs: ls, Keys: []string{"source", "", "source", ""}}, true, 991)
+					eval(c19Case{Kind: "insert", Locs: ls, Keys: []string{"source", "source", "", ""}}, true, 991)
 				})
 				complete = complete && done
 			}
